@@ -36,7 +36,9 @@ impl Compiler {
         }
 
         self.builder.free_register(undefined_reg);
-        Ok(())
+
+        // Function declarations of the list are created before its first statement runs
+        self.emit_hoisted_functions(statements)
     }
 
     /// Check if a variable name has been hoisted
